@@ -279,15 +279,17 @@ func implRemove(raw json.RawMessage) (any, error) {
 	if in.MaxPrice >= 0 {
 		mp = float64(in.MaxPrice) / 1024.0
 	}
+	// InstanceTypes.SatisfiesMinValues on the whole option list: how many (price-ordered) options are needed to meet every floor
+	needed, _, nerr := cloudprovider.InstanceTypes(its).SatisfiesMinValues(reqs)
 	res, err := nc.RemoveInstanceTypeOptionsByPriceAndMinValues(reqs, mp)
 	if err != nil {
-		return map[string]any{"err": true, "kept": []string{}}, nil
+		return map[string]any{"err": true, "kept": []string{}, "needed": needed, "neededErr": nerr != nil}, nil
 	}
 	kept := []string{}
 	for _, it := range res.InstanceTypeOptions {
 		kept = append(kept, it.Name)
 	}
-	return map[string]any{"err": false, "kept": kept}, nil
+	return map[string]any{"err": false, "kept": kept, "needed": needed, "neededErr": nerr != nil}, nil
 }
 
 func genRemove(r *rand.Rand, t core.Tier) any {
